@@ -64,6 +64,29 @@ Definition is_bare_name (e : expr) : bool :=
   end.
 Definition cond_rules (e : expr) : bool := is_bare_name e || expr_rules RJoin e.
 
+(** ** operators: every expression an operator carries obeys the rules of its position; a join has
+    a known kind and its conditions obey the join-condition rules, at any nesting depth *)
+Definition term_rules (t : sort_term) : bool := expr_rules RDefault (st_x t).
+Definition col_rules (c : ext_col) : bool := expr_rules RDefault (ec_x c).
+Definition proj_rules (c : proj_col) : bool :=
+  match pc_x c with Some x => expr_rules RDefault x | None => expr_rules RDefault (EQual [pc_name c]) end.
+Definition join_kinds : list str := [L "inner"; L "innerunique"; L "leftouter"].
+Definition join_kind_ok (fl : option ident) : bool :=
+  match fl with None => true | Some f => mem (iname f) join_kinds end.
+
+Fixpoint op_rules (o : operator) : bool :=
+  match o with
+  | OCount _ _ | OAs _ _ _ | ORender _ _ _ _ _ _ _ => true
+  | OWhere _ _ x => expr_rules RDefault x
+  | OSort _ _ ts => forallb term_rules ts
+  | OTake _ _ n => expr_rules RDefault n
+  | OTop _ _ n _ c => expr_rules RDefault n && term_rules c
+  | OProject _ _ cols => forallb proj_rules cols
+  | OExtend _ _ cols => forallb col_rules cols
+  | OSummarize _ _ cols _ gs => forallb col_rules cols && forallb col_rules gs
+  | OJoin _ _ _ _ fl _ _ rops _ _ conds => join_kind_ok fl && forallb op_rules rops && forallb cond_rules conds
+  end.
+
 End Rules.
 
 (** ** the statement list: lets before the query are closed constant expressions, evaluated in
@@ -76,4 +99,17 @@ Fixpoint stmts_rules (bound : str -> bool) (seen : bool) (ss : list stmt) : bool
   | SLet _ name _ x :: r =>
     if seen then stmts_rules bound seen r
     else expr_rules bound RLet x && stmts_rules (fun n => str_eqb (iname name) n || bound n) false r
+  end.
+
+(** ** whole programs: the lets before the query as above, exactly one tabular statement, and every
+    operator of it (at any depth) obeys the rules in the scope of the parameters and those lets *)
+Fixpoint prog_rules (bound : str -> bool) (q : option tabular) (ss : list stmt) : bool :=
+  match ss with
+  | [] => match q with Some t => forallb (op_rules bound) (tops t) | None => false end
+  | STab t :: r => match q with Some _ => false | None => prog_rules bound (Some t) r end
+  | SLet _ name _ x :: r =>
+    match q with
+    | Some _ => prog_rules bound q r
+    | None => expr_rules bound RLet x && prog_rules (fun n => str_eqb (iname name) n || bound n) None r
+    end
   end.
